@@ -41,11 +41,13 @@ from vlib.core import Check, Discard, Inconclusive, OracleSplit, Violation, load
 WORDS = ["zq", "qxv", "vzk", "kq7", "wj"]     # name no command / builtin / file
 CLASS_CHARS = {
     "plain": [""],
-    "whitespace": [" ", "\t", "  "],
-    "dollar": ["$", "$zq", "${zq}", "$$", "$(zq)"],
+    "space": [" ", "  "],
+    "tab": ["\t"],
+    "dollar": ["$", "$zq", "${zq}", "$$"],
     "backslash": ["\\", "\\\\", "\\n"],
-    "quote": ["'", '"', "`"],
-    "shell-operator": [";", "&", "|", "(", ")", "<", ">", "&&", "||"],
+    "quote": ["'", '"'],
+    "backtick": ["`"],
+    "shell-operator": [";", "&", "|", "(", ")", "<", ">", "&&", "||", "$(zq)"],
     "glob": ["*", "?", "[", "[a-z]"],
     "brace": ["{zq,qx}", "{1..3}"],
     "hash": ["#"],
@@ -62,6 +64,7 @@ OUT_FORMS = ["-o x", "-ox", "--output=x", "--output x"]
 AUX = ["none", "none", "dynamic-list", "export-dynamic-symbol-list", "retain-symbols-file"]
 PATH_STYLES = ["rel", "rel", "abs", "dotdot"]
 SIG_OUTFORM = "output-form-not-redirected"
+SIG_VALUE_IS_PATH = "plain-arg-value-names-copied-path"
 
 
 def render(spec):
@@ -86,13 +89,21 @@ def rsp_escape(s):
     return "".join(out)
 
 
+def is_shared(case):
+    """-soname / -rpath values only reach the output bytes of a shared object, so they force one."""
+    return bool(case["shared"] or case.get("soname") or case.get("rpath"))
+
+
 def features(case):
     """(signature-key, ...) of every hostile ingredient of the case, in priority order."""
     keys = []
-    if hostile(case["savedir"]):
-        keys.append(f"quoting:save-dir:{case['savedir']['cls']}")
     rsp = case["rsp"]
     in_rsp = [i for i in range(len(case["objs"])) if rsp["use"] and (rsp["which"] >> i) & 1 and i > 0]
+    if in_rsp and hostile(case["savedir"]):
+        # $D (the bundle directory) is substituted into every saved response-file entry.
+        keys.append(f"quoting:rsp-entry:{case['savedir']['cls']}")
+    if hostile(case["savedir"]):
+        keys.append(f"quoting:save-dir:{case['savedir']['cls']}")
     if in_rsp:
         if hostile(case["dir"]):
             keys.append(f"quoting:rsp-entry:{case['dir']['cls']}")
@@ -107,15 +118,25 @@ def features(case):
             keys.append(f"quoting:file-arg:{case['objs'][i]['cls']}")
     for k in ("archive", "script", "vscript", "libdir"):
         v = case[k]
-        if k == "vscript" and not case["shared"]:
+        if k == "vscript" and not is_shared(case):
             continue
         if v and hostile(v["name"]):
             keys.append(f"quoting:file-arg:{v['name']['cls']}")
     if case["thin"]:
         if hostile(case["thin"]["name"]):
             keys.append(f"quoting:file-arg:{case['thin']['name']['cls']}")
-    if case["soname"] and case["shared"] and hostile(case["soname"]["value"]):
-        keys.append(f"quoting:plain-arg:{case['soname']['value']['cls']}")
+    dname = render(case["dir"]) if case["dir"]["lead"] else "d_" + render(case["dir"])
+    for opt in ("soname", "rpath"):
+        if case.get(opt) and render(case[opt]["value"]) == dname:
+            # The value happens to spell a path that was copied into the bundle (the inputs' directory).
+            keys.insert(0, SIG_VALUE_IS_PATH)
+    for opt in ("soname", "rpath"):
+        if case.get(opt) and hostile(case[opt]["value"]):
+            v = case[opt]["value"]
+            cls = v["cls"]
+            if cls == "hash" and v["lead"] and case[opt]["form"] != "eq":
+                cls = "hash-at-word-start"    # a separate word starting with '#' is a shell comment
+            keys.append(f"quoting:plain-arg:{cls}")
     if case["out_form"].startswith("--output"):
         keys.append(SIG_OUTFORM)
     if case["aux"] != "none":
@@ -193,6 +214,8 @@ class C24(Check):
                 "name": spec("file-arg"), "form": st.sampled_from(["-Ldir", "-L dir"])})),
             "soname": st.one_of(st.none(), st.fixed_dictionaries({
                 "value": spec("plain-arg"), "form": st.sampled_from(["eq", "sep", "h"])})),
+            "rpath": st.one_of(st.none(), st.fixed_dictionaries({
+                "value": spec("plain-arg"), "form": st.sampled_from(["eq", "sep"])})),
             "savedir": spec("save-dir"),
             "out_form": st.sampled_from(out_forms),
             "aux": st.sampled_from(aux),
@@ -211,7 +234,7 @@ class C24(Check):
     def run_case(self, case, ctx):
         w = os.path.join(ctx.dir, "w")
         os.makedirs(w)
-        shared = case["shared"]
+        shared = is_shared(case)
         call = (lambda s: f"  call {s}@PLT") if shared else (lambda s: f"  call {s}")
         dname = "d_" + render(case["dir"]) if not case["dir"]["lead"] else render(case["dir"])
         ddir = os.path.join(w, dname)
@@ -291,10 +314,13 @@ class C24(Check):
             tools.write(os.path.join(ddir, vn), "VZQ_1 { global: _start; local: zz_*; };\n")
             sp = styled(f"{dname}/{vn}")
             extra_args += ([f"--version-script={sp}"] if case["vscript"]["form"] == "eq" else ["--version-script", sp])
-        if case["soname"] and shared:
+        if case["soname"]:
             v = render(case["soname"]["value"])
             f = case["soname"]["form"]
             extra_args += [f"-soname={v}"] if f == "eq" else (["-soname", v] if f == "sep" else ["-h", v])
+        if case.get("rpath"):
+            v = render(case["rpath"]["value"])
+            extra_args += [f"-rpath={v}"] if case["rpath"]["form"] == "eq" else ["-rpath", v]
         aux_rel = None
         if case["aux"] != "none":
             aux_rel = "plain/aux.txt"
@@ -332,6 +358,8 @@ class C24(Check):
             return args + ["--output", name]
 
         sd = "sd_" + render(case["savedir"]) if not case["savedir"]["lead"] else render(case["savedir"])
+        if sd == dname or sd.startswith("L_"):
+            sd = sd + "S"      # never the inputs' own directory (WILD_SAVE_DIR is wiped at start)
         if sd.startswith("-"):
             sd = "./" + sd
         out1 = os.path.join(w, "out1")
@@ -351,6 +379,8 @@ class C24(Check):
         detail = {"args": with_out("out1"), "save_dir": sd, "features": keys}
 
         def sig(stage):
+            if SIG_VALUE_IS_PATH in keys:
+                return SIG_VALUE_IS_PATH
             role_keys = [k for k in keys if k.startswith("quoting:") and not k.startswith("quoting:thin-member")]
             if role_keys:
                 return role_keys[0]
@@ -383,9 +413,16 @@ class C24(Check):
         tools_dir = os.path.join(core.TARGET, "c24-tools")
 
         def replay(out_name, stage):
+            # Same basename as the original output (the base version definition of a shared object is
+            # named after the output file, for GNU ld as well), different directory.
+            os.makedirs(os.path.join(w, os.path.dirname(out_name)))
             env = {"PATH": tools_dir, "OUT": out_name, "WILD_VALIDATE_OUTPUT": "0"}
-            r = hist.run_all([os.path.join(sd, "run-with") if not sd.startswith("./") else sd + "/run-with", core.WILD],
-                             cwd=w, env=env, timeout=60)
+            # Always invoked as ./<dir>/run-with (a leading '+', '-' or '@' of the directory name would
+            # otherwise be taken as an option by bash / as a response file by wild: not a quoting matter).
+            argv = ["./" + (sd[2:] if sd.startswith("./") else sd) + "/run-with", core.WILD]
+            r = hist.run_all(argv, cwd=w, env=env, timeout=60)
+            if r.timed_out:   # loaded machine: one retry before giving up
+                r = hist.run_all(argv, cwd=w, env=env, timeout=180)
             if r.timed_out:
                 raise Inconclusive("replay timed out")
             p = os.path.join(w, out_name)
@@ -399,22 +436,22 @@ class C24(Check):
             if open(out1, "rb").read() != b1:
                 raise Violation(sig(stage), f"[{stage}] the replay modified the original output", detail)
 
-        replay("out2", "replay")
+        replay("rep2/out1", "replay")
         # Move every original away; the bundle must be self-contained.
         moved = os.path.join(ctx.dir, "moved")
         os.makedirs(moved)
         sd_top = sd[2:] if sd.startswith("./") else sd
         for n in os.listdir(w):
-            if n in (sd_top, "out1", "out2"):
+            if n in (sd_top, "out1", "rep2"):
                 continue
             os.rename(os.path.join(w, n), os.path.join(moved, n))
-        replay("out3", "moved")
+        replay("rep3/out1", "moved")
 
         info = {"classes": [], "counters": {}}
         for k in keys:
             info["classes"].append(k)
-        for n in ("archive", "thin", "script", "vscript", "libdir", "soname"):
-            if case[n]:
+        for n in ("archive", "thin", "script", "vscript", "libdir", "soname", "rpath"):
+            if case.get(n):
                 info["classes"].append("uses:" + n)
         if in_rsp:
             info["classes"].append("uses:rsp" + ("-nested" if rsp["nested"] else ""))
@@ -423,7 +460,7 @@ class C24(Check):
         info["nontrivial"] = bool(keys or in_rsp or case["script"] or case["thin"])
         info["key"] = ",".join(sorted(keys)) + f"|{case['out_form']}|{case['path_style']}|" + \
             "".join(str(int(bool(x))) for x in (in_rsp, case["archive"], case["thin"], case["script"], case["vscript"],
-                                                case["libdir"], case["soname"], shared))
+                                                case["libdir"], case["soname"], case.get("rpath"), shared))
         return info
 
 
